@@ -44,3 +44,9 @@ M("c07-done-waiter-with-error-cancelled", "C07", A, "CancelScope._deliver_cancel
 
 # from seeded change C07/c (round 2)
 M("c07-handle-wait-fast-path", "C07", TASKS, "TaskHandle.wait", "        await self._finished_event.wait()", "        if self.status is TaskHandle.Status.PENDING:\n            await self._finished_event.wait()\n        else:\n            await checkpoint()", ["R07-g"])
+
+# from seeded change C07/d (round 2): a child started into a shielded *and* cancelled group
+M("c07-restart-shield-before-cancelled", "C07", A, "CancelScope._restart_cancellation",
+  "            if scope._cancel_called:\n                if scope._cancel_handle is None:\n                    scope._deliver_cancellation(scope)\n\n                break\n\n            # No point in looking beyond any shielded scope\n            if scope._shield:\n                break\n",
+  "            # No point in looking beyond any shielded scope\n            if scope._shield:\n                break\n\n            if scope._cancel_called:\n                if scope._cancel_handle is None:\n                    scope._deliver_cancellation(scope)\n\n                break\n", ["R07-h"])
+M("c07-spawn-no-restart", "C07", A, "TaskGroup._spawn", "        self.cancel_scope._restart_cancellation()\n", "", ["R07-h"])
